@@ -125,6 +125,7 @@ def readsched_corr(ctx, corr, rng, streams, per_stream, faults, opts=('-', 'h'))
             o = rng.choice(opts)
             cases.append(('s%d_%d' % (i, j), [b.hex(), o, sched]))
     impl, model = both_modes(ctx, 'readsched', cases, corr, parallel=16, hashes=True)
+    corr.sched_cases = dict(cases)
     for cid, f in cases:
         corr.seen('readsched' + f[1] + f[2] + f[0][:64]); corr.count('reader_over_schedule' + ('_faulty' if 'f' in f[2].split(',') else ''))
         if any('MODEL-HASH-MISMATCH' in l for l in model.get(cid, [])):
